@@ -92,6 +92,7 @@ struct Task {
   // simulated pthread state
   std::map<int, void *> tls;
   bool detached = false, joined = false, is_thread = false, started = false;
+  bool lib_thread = false;      // created by the library through pthread_create (its proxy code runs outside every API bracket)
   bool timed_out = false;       // a timed wait ended by its deadline
   int native = -1;              // native thread id slot (pthread_t value - 1); slots of joined / finished detached threads are reused
   void *retval = nullptr;
